@@ -185,7 +185,7 @@ theorem revealAfter_step (H : Hyp a T) (R : Ptr → Rat) {M A : List Word} {Lm L
           simp only [List.length_append, List.length_map, List.length_range] at hc'
           have hLm := (GM.open_ o1).1
           omega
-      · left; simpa [h] using m3
+      · left; simpa [h] using m3.toCN
 
 
 /-- what the back-off buffer after all pointers means for the code that follows (`in.left.full` charging / the
